@@ -1033,8 +1033,201 @@ fn run_writer_compositions(r: &Report) {
     }
 }
 
+// ------------------------------------------------------------------------------------------------
+// rows, read side: DeserializeRow::type_check + deserialize for Rust tuples (arity 0..4) and the dynamic Row type
+
+use crate::carriers::Carrier;
+use scylla_cql_core::deserialize::FrameSlice;
+use scylla_cql_core::deserialize::row::{ColumnIterator, DeserializeRow};
+
+struct RowEntry {
+    name: String,
+    /// expected relation given the column types (counts must match for tuples)
+    rel: fn(&[Type]) -> Rel,
+    type_check: fn(&[ColumnSpec<'static>]) -> Result<Result<(), String>, String>,
+    /// deserialize -> the row as a reference tuple value
+    deserialize: fn(&[ColumnSpec<'static>], &[Type], &[u8]) -> Result<Result<Value, String>, String>,
+}
+
+fn row_entry<T>() -> RowEntry
+where
+    T: Carrier + for<'f, 'm> DeserializeRow<'f, 'm>,
+{
+    RowEntry {
+        name: T::name(),
+        rel: |cols| {
+            // a row is not a tuple value: the column count must equal the tuple's arity
+            let arity = match T::home_types().first() {
+                Some(Type::Tuple(ts)) => ts.len(),
+                _ => usize::MAX,
+            };
+            if cols.len() != arity { Rel::Reject } else { T::rel_de(&Type::Tuple(cols.to_vec())) }
+        },
+        type_check: |specs| catch(AssertUnwindSafe(|| <T as DeserializeRow>::type_check(specs).map_err(|e| e.to_string()))),
+        deserialize: |specs, cols, bytes| {
+            let frame = bytes::Bytes::copy_from_slice(bytes);
+            catch(AssertUnwindSafe(|| {
+                let it = ColumnIterator::new(specs, FrameSlice::new(&frame));
+                <T as DeserializeRow>::deserialize(it).map(|row| row.key(&Type::Tuple(cols.to_vec()))).map_err(|e| e.to_string())
+            }))
+        },
+    }
+}
+
+fn dyn_row_entry() -> RowEntry {
+    use scylla_cql_core::value::Row;
+    RowEntry {
+        name: "Row".to_string(),
+        rel: |_| Rel::Accept,
+        type_check: |specs| catch(AssertUnwindSafe(|| <Row as DeserializeRow>::type_check(specs).map_err(|e| e.to_string()))),
+        deserialize: |specs, _cols, bytes| {
+            let frame = bytes::Bytes::copy_from_slice(bytes);
+            catch(AssertUnwindSafe(|| {
+                let it = ColumnIterator::new(specs, FrameSlice::new(&frame));
+                <Row as DeserializeRow>::deserialize(it).map_err(|e| e.to_string()).and_then(|row| {
+                    row.columns.iter().map(|c| match c {
+                        None => Ok(Value::Null),
+                        Some(v) => from_cql(v),
+                    }).collect::<Result<Vec<_>, _>>().map(Value::Tuple)
+                })
+            }))
+        },
+    }
+}
+
+fn row_entries() -> Vec<RowEntry> {
+    let mut v = vec![dyn_row_entry(), row_entry::<()>()];
+    macro_rules! reg { ($($t:ty),* $(,)?) => { $( v.push(row_entry::<$t>()); )* } }
+    reg!(
+        (i32,), (String,), (Vec<i32>,), (Option<i32>,), (CqlValue,),
+        (i32, i32), (i32, String), (String, i32), (String, String), (i32, Vec<i32>), (Vec<i32>, String), (Option<String>, Option<i32>), (CqlValue, i32),
+        (i32, String, Vec<i32>), (i32, i32, i32), (String, Option<i32>, Option<Vec<i32>>), (Option<i32>, CqlValue, String),
+        (i32, String, Vec<i32>, i32), (Option<i32>, Option<String>, Option<Vec<i32>>, Option<i32>), (String, String, i32, CqlValue),
+    );
+    v
+}
+
+fn run_row_decode_matrix(r: &Report) {
+    let col_types = [t_int(), t_text(), list_of(t_int())];
+    let table = TableSpec::owned("ks".into(), "t".into());
+    let entries = row_entries();
+    // all column lists of length 0..5
+    let mut lists: Vec<Vec<usize>> = vec![vec![]];
+    let mut layer: Vec<Vec<usize>> = vec![vec![]];
+    for _ in 0..5 {
+        let mut next = Vec::new();
+        for p in &layer {
+            for c in 0..col_types.len() {
+                let mut q = p.clone();
+                q.push(c);
+                next.push(q);
+            }
+        }
+        lists.extend(next.iter().cloned());
+        layer = next;
+    }
+    r.counters.add("row_decode_carriers", entries.len() as u64);
+    r.counters.add("row_decode_column_lists", lists.len() as u64);
+    let (entries_ref, lists_ref, table_ref) = (&entries, &lists, &table);
+    let outcomes: [AtomicU64; 4] = Default::default(); // accept ok, reject refused, dontcare accepted, dontcare refused
+    let out_ref = &outcomes;
+    vcore::par::for_each(r.args.jobs, 8, 0..lists.len(), |li| {
+        let cols: Vec<Type> = lists_ref[li].iter().map(|c| col_types[*c].clone()).collect();
+        let specs: Vec<ColumnSpec<'static>> = cols.iter().enumerate().map(|(i, t)| ColumnSpec::owned(format!("c{i}"), column_type(t), table_ref.clone())).collect();
+        // row A: a witness in every column; row B: first column null
+        let witnesses: Vec<Value> = cols.iter().map(crate::carriers::witness_value).collect();
+        let mut row_a = Vec::new();
+        let mut row_b = Vec::new();
+        for (i, (t, w)) in cols.iter().zip(&witnesses).enumerate() {
+            let cell = refv::encode(t, w).unwrap().framed();
+            row_a.extend_from_slice(&cell);
+            if i == 0 {
+                row_b.extend_from_slice(&(-1i32).to_be_bytes());
+            } else {
+                row_b.extend_from_slice(&cell);
+            }
+        }
+        let want_a = Value::Tuple(witnesses.clone());
+        for e in entries_ref {
+            r.eval(1);
+            let case = || json!({"leg": "rows", "part": "row-decode", "carrier": e.name, "columns": cols.iter().map(|t| t.to_string()).collect::<Vec<_>>()});
+            let rel = (e.rel)(&cols);
+            let tc = (e.type_check)(&specs);
+            let accepted = match &tc {
+                Err(p) => {
+                    r.violation(&format!("rows:de:panic-type_check:{}", e.name), &format!("DeserializeRow::type_check of {} against {} columns panicked: {p}", e.name, cols.len()), case());
+                    continue;
+                }
+                Ok(Ok(())) => true,
+                Ok(Err(_)) => false,
+            };
+            match (rel, accepted) {
+                (Rel::Reject, true) => {
+                    // show what reading such a row does
+                    let what = match (e.deserialize)(&specs, &cols, &row_a) {
+                        Err(p) => format!("and deserialize then panics: {p}"),
+                        Ok(Ok(v)) => format!("and deserialize then yields {}", values::brief(&v)),
+                        Ok(Err(err)) => format!("and deserialize then fails: {err}"),
+                    };
+                    r.violation(
+                        &format!("rows:de:mismatch-accepted:{}", e.name),
+                        &format!("DeserializeRow::type_check lets a row of columns [{}] be read as {} {what}", cols.iter().map(|t| t.to_string()).collect::<Vec<_>>().join(", "), e.name),
+                        case(),
+                    );
+                    continue;
+                }
+                (Rel::Accept, false) => {
+                    r.violation(&format!("rows:de:documented-row-refused:{}", e.name), &format!("{} refused for columns [{}]: {:?}", e.name, cols.iter().map(|t| t.to_string()).collect::<Vec<_>>().join(", "), tc), case());
+                    continue;
+                }
+                (Rel::Reject, false) => {
+                    out_ref[1].fetch_add(1, Ordering::Relaxed);
+                    continue;
+                }
+                (Rel::DontCare, false) => {
+                    out_ref[3].fetch_add(1, Ordering::Relaxed);
+                    continue;
+                }
+                (Rel::DontCare, true) => {
+                    out_ref[2].fetch_add(1, Ordering::Relaxed);
+                }
+                (Rel::Accept, true) => {}
+            }
+            // type_check passed legitimately: reading never panics; for Accept the row comes back as bound
+            match (e.deserialize)(&specs, &cols, &row_a) {
+                Err(p) => r.violation(&format!("rows:de:panic-deserialize:{}", e.name), &format!("reading a row of {} columns as {} panicked: {p}", cols.len(), e.name), case()),
+                Ok(Err(err)) => {
+                    if rel == Rel::Accept {
+                        r.violation(&format!("rows:de:row-not-read:{}", e.name), &format!("a well-formed row of [{}] is not read as {}: {err}", cols.iter().map(|t| t.to_string()).collect::<Vec<_>>().join(", "), e.name), case());
+                    }
+                }
+                Ok(Ok(got)) => {
+                    if rel == Rel::Accept {
+                        if refv::canon(&Type::Tuple(cols.clone()), &got).ok() != refv::canon(&Type::Tuple(cols.clone()), &want_a).ok() && !(cols.is_empty()) {
+                            r.violation(&format!("rows:de:row-misread:{}", e.name), &format!("row {} read as {} gives {}", values::brief(&want_a), e.name, values::brief(&got)), case());
+                        } else {
+                            out_ref[0].fetch_add(1, Ordering::Relaxed);
+                        }
+                    }
+                }
+            }
+            if !cols.is_empty() {
+                if let Err(p) = (e.deserialize)(&specs, &cols, &row_b) {
+                    r.violation(&format!("rows:de:panic-deserialize:{}", e.name), &format!("reading a row whose first column is null as {} panicked: {p}", e.name), case());
+                }
+            }
+        }
+    });
+    r.counters.add("row_decode_accept_read_back", outcomes[0].load(Ordering::Relaxed));
+    r.counters.add("row_decode_reject_refused", outcomes[1].load(Ordering::Relaxed));
+    r.counters.add("row_decode_dontcare_accepted", outcomes[2].load(Ordering::Relaxed));
+    r.counters.add("row_decode_dontcare_refused", outcomes[3].load(Ordering::Relaxed));
+    r.nontrivial(outcomes[0].load(Ordering::Relaxed) + outcomes[1].load(Ordering::Relaxed));
+}
+
 pub fn run_rows(r: &Report) {
     run_count_boundary(r);
+    run_row_decode_matrix(r);
     run_writer_compositions(r);
     let col_types = [t_int(), t_text(), list_of(t_int())];
     let kinds = row_value_kinds();
@@ -1128,7 +1321,7 @@ pub fn run_rows(r: &Report) {
             }
         }
     });
-    r.set_rule("E-ENUM rows. Every column list of length 0..3 over {int, text, list<int>} x every value list of length 0..3 over {int, text, list<int>, a list whose 2nd element is text, null, not-set} (equal arity: all; arity off by one: all-int values) bound as Vec<T>, &[T], Rust tuple, HashMap<String,T> and BTreeMap<&str,T> (right names, one wrong name, one extra name) through SerializedValues::from_serializable: accepted iff every value fits its column and arity/names match; on success element_count() == iter().count() == number of columns and the bytes are the concatenated reference cells. Value-count boundary: {65534, 65535, 65536, 65537, 131072} int values through from_serializable over Vec, slice, HashMap<String,_>, BTreeMap<&str,_> with a matching context of that many columns, from_closure (cell by cell; appending an existing list), and an add_value loop: refused (only above 65535, list unchanged) or element_count() == iter().count() == count on the wire == number bound. RowWriter compositions: every order of {one cell via make_cell_writer, append_serialize_row of a pre-serialized list of 0..3 cells} with at most three cells and three appends, plus 20 boundary sums around 65535 (40000+25535, 40000+25536, 40000+40000, cell+65535, ...), through RowWriter directly (value_count() == encoded cells == bound) and through from_closure (refused only above 65535, else element_count() == iter().count() == count on the wire == bound). distinct_nontrivial = accepted rows verified + boundary cases and compositions decided.");
+    r.set_rule("E-ENUM rows. Every column list of length 0..3 over {int, text, list<int>} x every value list of length 0..3 over {int, text, list<int>, a list whose 2nd element is text, null, not-set} (equal arity: all; arity off by one: all-int values) bound as Vec<T>, &[T], Rust tuple, HashMap<String,T> and BTreeMap<&str,T> (right names, one wrong name, one extra name) through SerializedValues::from_serializable: accepted iff every value fits its column and arity/names match; on success element_count() == iter().count() == number of columns and the bytes are the concatenated reference cells. Value-count boundary: {65534, 65535, 65536, 65537, 131072} int values through from_serializable over Vec, slice, HashMap<String,_>, BTreeMap<&str,_> with a matching context of that many columns, from_closure (cell by cell; appending an existing list), and an add_value loop: refused (only above 65535, list unchanged) or element_count() == iter().count() == count on the wire == number bound. RowWriter compositions: every order of {one cell via make_cell_writer, append_serialize_row of a pre-serialized list of 0..3 cells} with at most three cells and three appends, plus 20 boundary sums around 65535 (40000+25535, 40000+25536, 40000+40000, cell+65535, ...), through RowWriter directly (value_count() == encoded cells == bound) and through from_closure (refused only above 65535, else element_count() == iter().count() == count on the wire == bound). Read side: DeserializeRow::type_check + deserialize for Rust tuples of arity 0..4 (21 carriers) and the dynamic Row type against every column list of length 0..5 over {int, text, list<int>}: a tuple must be refused when the column count differs or a field does not fit, a fitting row is read back as bound, and reading never panics (also with a null first column). distinct_nontrivial = accepted rows verified + boundary cases, compositions and read-side cells decided.");
     r.set_exhaustive(true);
     r.sample(json!({"columns": ["int", "list<int>"], "row": "HashMap<String,_> {c1: [1,2], c0: 7}", "expected": "accepted; 2 cells; bytes = reference cells in column order"}));
     r.sample(json!({"columns": ["int", "text"], "row": "(7, [1, 'x'])", "expected": "refused"}));
